@@ -18,15 +18,16 @@ enum {
   V_EX_STACK_64K,      /* attr init + setstacksize(65536) */
   V_EX_STACK_12K,      /* attr init + setstacksize(12288): rounded up to the 16K class */
   V_EX_NULLID,         /* myth_create_ex(NULL, NULL, f, a): id not wanted */
+  V_EX_STACK_ODD,      /* attr init + setstacksize(20000): not a multiple of the page size */
   V_N
 };
 static const char * const v_name[] = { "create", "ex(attr=NULL)", "ex(attr=init)", "ex(parent-first)", "ex(stack=8K)",
-				       "ex(stack=16K,parent-first)", "ex(stack=64K)", "ex(stack=12K)", "ex(id=NULL)" };
+				       "ex(stack=16K,parent-first)", "ex(stack=64K)", "ex(stack=12K)", "ex(id=NULL)", "ex(stack=20000)" };
 
 static inline int v_parent_first(int v) { return v == V_EX_PARENT_FIRST || v == V_EX_STACK_16K_PF; }
 static inline size_t v_stack(int v) {
   switch (v) { case V_EX_STACK_8K: return 8192; case V_EX_STACK_16K_PF: return 16384; case V_EX_STACK_64K: return 65536;
-  case V_EX_STACK_12K: return 12288; default: return 0; }
+  case V_EX_STACK_12K: return 12288; case V_EX_STACK_ODD: return 20000; default: return 0; }
 }
 
 /* prepare an attribute object the way a user would: storage with arbitrary contents,
